@@ -286,8 +286,9 @@ class QR {
                 // writing the matrix A^T as A^T = QR and solving for x as
                 // x = Q^-T R^-T f = Q R^-T f.
                 if (!computed) {
-                    for(int i = 0, n = cols * rows; i < n; ++i)
-                        A[i] = math::adjoint(A[i]);
+                    for(int i = 0; i < rows; ++i)
+                        for(int j = 0; j < cols; ++j)
+                            A[i * row_stride + j * col_stride] = math::adjoint(A[i * row_stride + j * col_stride]);
                     compute(cols, rows, col_stride, row_stride, A);
                 }
 
